@@ -931,21 +931,7 @@ def classify(f: dict, d: dict, module: str, src: str = "") -> dict:
             cause = "local-class-in-lazy-stub"
 
         return {"kind": "generated-syntax-error", "cause": cause}
-    if kind == "build-error":
-        import re
-        cause = "other"
-        if src and "use_annotations=True" in src:
-            for m in re.finditer(r"^from [\w.]+ import (\w+)$", src, re.M):
-                nm = m.group(1)
-                if nm in BUILDER_ATTRS and re.search(r"(->|:) *['\"]?[\w\[, ]*\b" + nm + r"\.", src):
-                    cause = "annotation-name-in-builder-dict"
-        return {"kind": "build-error", "cause": cause}
     return {"kind": kind, "cause": "other"}
-
-
-# instance attributes of CodeBuilder: its __dict__ is the *local* namespace of evaluate_forward_ref
-BUILDER_ATTRS = {"cls", "lines", "globals", "resolved_type_params", "field_classes", "initial_type_args", "dialect", "default_dialect",
-                 "allow_postponed_evaluation", "format_name", "decoder", "encoder", "encoder_kwargs", "attrs", "attrs_registry"}
 
 
 def _only_in_union_type_test(prog: str, name: str) -> bool:
